@@ -6,6 +6,11 @@ HERE = os.path.dirname(os.path.abspath(__file__))
 
 # id -> (level, technique, text, note)   (only implemented checks are listed; the rest go to not_applicable)
 CHECKS = {
+    "C18": ("model_checking",
+            "exhaustive enumeration of dangling-reference placements: every listed entry site of a rich document x 3 dangling classes x 2 xref formats x 4 configurations (differential against the document with the entry removed), and every field of the 45-model table x 3 classes x 2 modes inside real files",
+            "Each optional entry (typed options, defaulted entries, maps and their values, array elements, lazily loaded and eagerly resolved carriers) is pointed at a free entry, a number beyond /Size and a number in a gap; the complete walk must equal the walk with the entry removed; required entries must give an error naming the entry and never a panic. Full product of the listed sites and classes.",
+            "Trusted: the site list and the model table (the latter guarded against the sources). Carriers that the typed object does not interpret (plain Ref, raw Primitive, catch-all entries) can only be required not to break the load.",
+            "§5 C18"),
     "C15": ("model_checking",
             "deviation-bounded exhaustive exploration of field assignments of 45 typed models (absent/default/other per field, all enum variants, nested models, unknown keys, int-vs-real spelling) through the real reader and writer on a real Storage",
             "For every model that can be read and written the explorer enumerates all dictionaries within 5 (quick) / 8 (thorough) field deviations of the minimal valid one; oracle p0 -> T -> p1 -> T -> p2 with p1 == p2, and for catch-all models every input entry preserved (recursively, up to omitted defaults, int == real, equal dates). A guard keeps the table in step with the #[pdf(key)] attributes in the sources.",
